@@ -93,7 +93,7 @@ def gen_composite(rng, docs, depth):
 
 
 def gen_terms(rng, docs, depth, top):
-    field = rng.choice(["cat", "cat", "cat", "v", "w", "f"])
+    field = rng.choice(["cat", "cat", "cat", "v", "w", "f", "g"])
     a = {"k": "terms", "field": field}
     a["size"] = rng.choice([1, 2, 3, 5, 10, 12])
     a["mdc"] = rng.choice([1, 1, 1, 2, 3])
@@ -142,7 +142,66 @@ def gen_range(rng, docs, depth):
     return {"k": "range", "field": field, "ranges": rs, "sub": gen_subs(rng, docs, depth)}
 
 
+QDEN = 20.0          # unit of the fractional field q (harness: value i <-> i / 20)
+Q_LO, Q_HI = -7, 37  # range of the values and bounds used with q, in units
+
+
+def q_safe(iu, ou):
+    """Steering away from what the property leaves undecided (DESIGN: fractional intervals where f64 rounding
+    defines the bucket): with interval iu/20 and offset ou/20, (a) every odd value / bound x of the range falls, in
+    f64, into the bucket the exact arithmetic gives, and (b) every key of the range maps back to its own position
+    (tantivy recomputes positions from keys when it fills gaps; e.g. interval 0.5, offset 0.2: the key 0.7 maps
+    back to position 0 and an extra empty bucket 0.2 appears)."""
+    import math
+    iv, off = iu / QDEN, ou / QDEN
+    for x in range(Q_LO, Q_HI + 1, 2):
+        if math.floor((x / QDEN - off) / iv) != (x - ou) // iu:
+            return False
+    for pos in range((1 - ou) // iu, (31 - ou) // iu + 1):      # keys of buckets that can hold a value (values are 1..31)
+        if math.floor(((pos * iv + off) - off) / iv) != pos:
+            return False
+    return True
+
+
+Q_CHOICES = [(iu, ou) for iu in (2, 4, 6, 10) for ou in range(0, iu, 2) if q_safe(iu, ou)]
+
+
+def gen_hist_q(rng, docs, depth, leaf=False):
+    """histogram with a fractional interval (0.1, 0.2, 0.3, 0.5) on the fractional field q"""
+    iv, off = rng.choice(Q_CHOICES)
+    a = {"k": "histogram", "field": "q", "interval": iv, "offset": off}
+    a["mdc"] = rng.choice([0, 0, 1, 2])
+    if a["mdc"] == 0 and rng.random() < 0.5:
+        a["mdc_default"] = True
+    if rng.random() < 0.25:
+        x, y = sorted([2 * rng.randint(-3, 18) + 1, 2 * rng.randint(-3, 18) + 1])
+        a["hard"] = {"min": x, "max": y}
+    if a["mdc"] == 0 and rng.random() < 0.3:
+        lo, hi = (a["hard"]["min"], a["hard"]["max"]) if "hard" in a else (-7, 37)
+        x, y = sorted([2 * rng.randint((lo - 1) // 2, (hi - 1) // 2) + 1 for _ in range(2)])
+        a["ext"] = {"min": x, "max": y}
+    a["sub"] = [] if leaf else gen_subs(rng, docs, depth)
+    return a
+
+
+def gen_fused(rng, docs):
+    """the request family of the fused collector: a top-level terms aggregation on a full low-cardinality column
+    with exactly one histogram below it and nothing further down"""
+    a = gen_terms(rng, docs, 0, True)
+    a["field"] = rng.choice(["g", "g", "cat"])
+    a.pop("missing", None)
+    if a["ord"]["t"] == "sub":
+        a["ord"] = {"t": "count", "asc": rng.random() < 0.5, "name": "", "prop": ""}
+    a["sub"] = [["h", gen_hist_q(rng, docs, 0, leaf=True) if rng.random() < 0.8 else dict(gen_hist(rng, docs, 0), sub=[])]]
+    a["segsize"], a["segsize_set"] = 100, True
+    if a["field"] != "cat" and a["mdc"] == 0:
+        a["mdc"] = 1
+    return a
+
+
 def gen_hist(rng, docs, depth):
+    if rng.random() < 0.2:
+        return gen_hist_q(rng, docs, depth)
     date = rng.random() < 0.25
     unit = 1000 if date else 1
     a = {"k": "date_histogram" if date else "histogram", "field": "d" if date else rng.choice(["w", "f", "v", "v", "v"] if GENOPT["mv"] else ["w", "f"])}
@@ -202,6 +261,9 @@ def gen_docs(rng, n, ncat):
             "f": [rng.randint(-10, 40)] if rng.random() < 0.8 else [],
             "d": [rng.randint(0, 60) * 1000] if rng.random() < 0.75 else [],
             "g": [1 if rng.random() < 0.6 else 0],
+            # fractional field (units of 0.05, every document exactly one value): odd units, so that a value is never
+            # on a bucket boundary of an interval / offset of even units (there f64 rounding decides the bucket)
+            "q": [2 * rng.randint(0, 15) + 1],
         })
     return docs
 
@@ -257,6 +319,8 @@ def gen_case(rng, cid, nmax=12, depth=2, tag="rand"):
     if rng.random() < 0.3:
         rng.shuffle(allidx)
     req = [[f"a{j}", gen_agg(rng, docs, depth, top=True)] for j in range(rng.choice([1, 1, 2, 3]))]
+    if rng.random() < 0.1:
+        req[0][1] = gen_fused(rng, docs)
     return {"id": cid, "tag": tag, "docs": docs, "parts": parts, "all": split_segments(rng, allidx, 4),
             "query": "all" if rng.random() < 0.65 else "g1", "req": req, "plan": gen_plan(rng, nparts)}
 
@@ -362,6 +426,8 @@ def clean(events):
 
 
 def execute(ctx, cases, label, timeout=600):
+    for c in cases:          # hand-written cases: every document has the (full) fractional field
+        c["docs"] = [d if "q" in d else dict(d, q=[1]) for d in c["docs"]]
     cp = ctx.path(f"{label}_cases.ndjson")
     vlib.write_ndjson(cp, cases)
     tp = ctx.path(f"{label}_trace.ndjson")
@@ -534,7 +600,18 @@ def regression_seeds():
     sub = [["t", _TERMS]]
     f13 = [dict(_BASE, id=900005, tag="seed F13", req=[["r", {"k": "range", "field": "v", "ranges": _RNG4, "sub": sub}]]),
            dict(_BASE, id=900006, tag="seed F13", req=[["h", {"k": "histogram", "field": "v", "interval": 10, "offset": 0, "mdc": 1, "sub": sub}]])]
-    return [f22, f23, f24, f25], f13
+    # fused terms x histogram collector with a fractional interval (0.1): the grids of the two segments start at
+    # different bucket positions (0 and 5); every key must be pos * interval, whatever the grid it came from
+    dq = [{"id": [i + 1], "cat": [], "v": [], "w": [], "f": [], "d": [], "g": [i % 2], "q": [2 * i + 1]} for i in range(10)]
+    dq += [{"id": [11 + i], "cat": [], "v": [], "w": [], "f": [], "d": [], "g": [i % 2], "q": [11 + 2 * i]} for i in range(5)]
+    hq = {"k": "histogram", "field": "q", "interval": 2, "offset": 0, "mdc": 1, "sub": []}
+    s1, s2 = list(range(10)), list(range(10, 15))
+    plan2 = [{"op": "collect", "h": 1, "part": 0}, {"op": "collect", "h": 2, "part": 1}, {"op": "merge", "a": 1, "b": 2}, {"op": "final", "h": 1}]
+    fz = [{"id": 900007, "tag": "seed fused fractional", "docs": dq, "parts": [[s1], [s2]], "all": [s1, s2], "query": "all",
+           "req": [["t", dict(_TERMS, field="g", sub=[["h", hq]])]], "plan": plan2},
+          {"id": 900008, "tag": "seed fused fractional", "docs": dq, "parts": [[s2], [s1]], "all": [s2, s1], "query": "all",
+           "req": [["t", dict(_TERMS, field="g", sub=[["h", dict(hq, mdc=0)]])]], "plan": plan2}]
+    return [f22, f23, f24, f25] + fz, f13
 
 
 def known_finding_runs(ctx):
